@@ -188,75 +188,102 @@ func (r *FeatureLocal) addPendingApproval(msg *api.Message) {
 	}
 
 	ski := msg.DeviceRemote.Ski()
+	msgCounter := *msg.RequestHeader.MsgCounter
 
-	newTimer := time.AfterFunc(r.writeTimeout, func() {
-		r.muxResponseCB.Lock()
-		delete(r.pendingWriteApprovals[ski], *msg.RequestHeader.MsgCounter)
-		r.muxResponseCB.Unlock()
-
-		err := model.NewErrorTypeFromString("write not approved in time by application")
-		_ = msg.FeatureRemote.Device().Sender().ResultError(msg.RequestHeader, r.Address(), err)
-	})
-
+	// the timer is created and registered while the lock is held. Its callback
+	// needs the same lock first, so it can not run before the timer is registered
 	r.muxResponseCB.Lock()
+	defer r.muxResponseCB.Unlock()
+
 	if _, ok := r.pendingWriteApprovals[ski]; !ok {
 		r.pendingWriteApprovals[ski] = make(map[model.MsgCounterType]*time.Timer)
 	}
 	// a repeated message with the same counter must not orphan the timer
 	// of the first one, it could never be stopped or cleaned up anymore
-	if oldTimer, ok := r.pendingWriteApprovals[ski][*msg.RequestHeader.MsgCounter]; ok && oldTimer != nil {
+	if oldTimer, ok := r.pendingWriteApprovals[ski][msgCounter]; ok && oldTimer != nil {
 		oldTimer.Stop()
 	}
-	r.pendingWriteApprovals[ski][*msg.RequestHeader.MsgCounter] = newTimer
-	r.muxResponseCB.Unlock()
+
+	r.pendingWriteApprovals[ski][msgCounter] = time.AfterFunc(r.writeTimeout, func() {
+		// if a verdict already decided this write, there is nothing to do
+		if !r.claimPendingApproval(ski, msgCounter) {
+			return
+		}
+
+		err := model.NewErrorTypeFromString("write not approved in time by application")
+		_ = msg.FeatureRemote.Device().Sender().ResultError(msg.RequestHeader, r.Address(), err)
+	})
+}
+
+// Remove the pending approval of a write and report if it was still pending.
+//
+// A write has to get exactly one outcome. The timeout and the deciding verdict
+// both have to claim the pending approval first and only the one that gets it
+// may apply the write or send the error result.
+func (r *FeatureLocal) claimPendingApproval(ski string, msgCounter model.MsgCounterType) bool {
+	r.muxResponseCB.Lock()
+	defer r.muxResponseCB.Unlock()
+
+	timer, ok := r.pendingWriteApprovals[ski][msgCounter]
+	if !ok {
+		return false
+	}
+
+	if timer != nil {
+		timer.Stop()
+	}
+	delete(r.pendingWriteApprovals[ski], msgCounter)
+
+	return true
 }
 
 func (r *FeatureLocal) ApproveOrDenyWrite(msg *api.Message, err model.ErrorType) {
 	if r.Role() != model.RoleTypeServer ||
-		msg.DeviceRemote == nil {
+		msg.DeviceRemote == nil ||
+		msg.RequestHeader == nil ||
+		msg.RequestHeader.MsgCounter == nil {
 		return
 	}
 
 	ski := msg.DeviceRemote.Ski()
+	msgCounter := *msg.RequestHeader.MsgCounter
 
 	r.muxResponseCB.Lock()
-	timer, ok := r.pendingWriteApprovals[ski][*msg.RequestHeader.MsgCounter]
+	_, ok := r.pendingWriteApprovals[ski][msgCounter]
 	count := len(r.writeApprovalCallbacks)
 	r.muxResponseCB.Unlock()
 
-	// if there is no timer running, we are too late and error has already been sent
-	if !ok || timer == nil {
+	// if the approval is not pending anymore, we are too late and the result has already been sent
+	if !ok {
 		return
 	}
 
 	// do we have enough approvals?
-	r.muxWriteReceived.Lock()
-	defer r.muxWriteReceived.Unlock()
 	if count > 1 && err.ErrorNumber == 0 {
-		amount, ok := r.writeApprovalReceived[ski][*msg.RequestHeader.MsgCounter]
-		if ok {
-			r.writeApprovalReceived[ski][*msg.RequestHeader.MsgCounter] = amount + 1
-		} else {
-			// do not replace an existing map, it holds the approvals
-			// of the other pending writes of this device
-			if r.writeApprovalReceived[ski] == nil {
-				r.writeApprovalReceived[ski] = make(map[model.MsgCounterType]int)
-			}
-			r.writeApprovalReceived[ski][*msg.RequestHeader.MsgCounter] = 1
+		r.muxWriteReceived.Lock()
+		// do not replace an existing map, it holds the approvals
+		// of the other pending writes of this device
+		if r.writeApprovalReceived[ski] == nil {
+			r.writeApprovalReceived[ski] = make(map[model.MsgCounterType]int)
 		}
+		r.writeApprovalReceived[ski][msgCounter]++
+		enough := r.writeApprovalReceived[ski][msgCounter] >= count
+		r.muxWriteReceived.Unlock()
+
 		// do we have enough approve messages, if not exit
-		if r.writeApprovalReceived[ski][*msg.RequestHeader.MsgCounter] < count {
+		if !enough {
 			return
 		}
 	}
 
-	timer.Stop()
+	// the timeout or another verdict may have decided this write in the meantime
+	if !r.claimPendingApproval(ski, msgCounter) {
+		return
+	}
 
-	delete(r.writeApprovalReceived[ski], *msg.RequestHeader.MsgCounter)
-
-	r.muxResponseCB.Lock()
-	defer r.muxResponseCB.Unlock()
-	delete(r.pendingWriteApprovals[ski], *msg.RequestHeader.MsgCounter)
+	r.muxWriteReceived.Lock()
+	delete(r.writeApprovalReceived[ski], msgCounter)
+	r.muxWriteReceived.Unlock()
 
 	if err.ErrorNumber == 0 {
 		r.processWrite(msg)
